@@ -9,6 +9,9 @@
                                        "eqc":t,"eqi":t,"eqa":t}..]}      V = {"live":[[k,v]..],"tomb":[k..]}
      {"e":"ord","a":V,"b":V,"obs":[{"b":name,"panic":bool,"cmp":"lt|eq|gt|none|na","eq":t,"bota":t,
                                    "botb":t,"defbot":t,"ch":bool}..]}    t = 1 true, 0 false, -1 n/a
+     {"e":"from","a":V,"obs":[{"b":"src>dst","panic":bool,"out":V}..]}     LatticeFrom conversions (C04)
+     {"e":"nlaw","ty":"mapunion"|"withbot","a":N,"b":N,"c":N,"obs":[as "law" with nested values]}
+                                          N = [{"k":key,"v":V}..]  compound lattices (C01 / C04)
      {"e":"eof"}
    obs: one record per backend {"b":name,"ch":bool,"live":[[k,v]..],"keys":[k..],"tomb":[k..],
    "panic":bool} = what replica r reveals (as_reveal_ref) after the call returned.
@@ -36,6 +39,16 @@ LawObs(ev) == [i \in 1..Len(ev.obs) |->
                  ELSE [b |-> o.b, panic |-> FALSE, ab |-> Val(o.ab), ba |-> Val(o.ba), aa |-> Val(o.aa),
                        abc1 |-> Val(o.abc1), abc2 |-> Val(o.abc2), eqc |-> o.eqc, eqi |-> o.eqi, eqa |-> o.eqa]]
 
+NVal(x) == {<<x[i].k, Val(x[i].v)>> : i \in 1..Len(x)}
+NLawObs(ev) == [i \in 1..Len(ev.obs) |->
+                  LET o == ev.obs[i] IN
+                  IF o.panic THEN [b |-> o.b, panic |-> TRUE]
+                  ELSE [b |-> o.b, panic |-> FALSE, ab |-> NVal(o.ab), ba |-> NVal(o.ba), aa |-> NVal(o.aa),
+                        abc1 |-> NVal(o.abc1), abc2 |-> NVal(o.abc2), eqc |-> o.eqc, eqi |-> o.eqi, eqa |-> o.eqa]]
+FromObs(ev) == [i \in 1..Len(ev.obs) |->
+                  LET o == ev.obs[i] IN
+                  IF o.panic THEN [b |-> o.b, panic |-> TRUE] ELSE [b |-> o.b, panic |-> FALSE, out |-> Val(o.out)]]
+
 \* implementation-level expectation (not a property): a map key is revealed without a value
 DriftOf(ev, r) ==
     LET obs == Obs(ev) IN
@@ -57,13 +70,15 @@ TMerge == Ev.e = "merge" /\ MMergeFrom(Ev.r, Ev.s, Obs(Ev)) /\ UNCHANGED case
           /\ drift' = drift \cup DriftOf(Ev, Ev.r)
 TLaw == Ev.e = "law" /\ MLaw(Val(Ev.a), Val(Ev.b), Val(Ev.c), LawObs(Ev)) /\ UNCHANGED <<case, drift>>
 TOrd == Ev.e = "ord" /\ MOrd(Val(Ev.a), Val(Ev.b), Ev.obs) /\ UNCHANGED <<case, drift>>
+TFrom == Ev.e = "from" /\ MFrom(Val(Ev.a), FromObs(Ev)) /\ UNCHANGED <<case, drift>>
+TNLaw == Ev.e = "nlaw" /\ MNLaw(NVal(Ev.a), NVal(Ev.b), NVal(Ev.c), NLawObs(Ev)) /\ UNCHANGED <<case, drift>>
 TEof == Ev.e = "eof" /\ UNCHANGED <<mvars, case, drift>>
         /\ PrintT(<<"VIOL", ToJson(viol)>>) /\ PrintT(<<"DRIFT", ToJson(drift)>>)
         /\ PrintT(<<"ALSO", ToJson(viol2)>>)
 
 TNext ==
     /\ l <= Len(Rec) /\ l' = l + 1
-    /\ (TReset \/ TLoad \/ TIns \/ TInsBot \/ TDel \/ TMerge \/ TLaw \/ TOrd \/ TEof)
+    /\ (TReset \/ TLoad \/ TIns \/ TInsBot \/ TDel \/ TMerge \/ TLaw \/ TOrd \/ TFrom \/ TNLaw \/ TEof)
     /\ viol' = viol \cup {<<case', b>> : b \in Broken'}
     /\ viol2' = viol2 \cup {<<case', x[1], x[2]>> : x \in also'}
 
